@@ -46,6 +46,7 @@ type rlScn struct {
 	H       []rlEvent `json:"h"`
 	Outcome []string  `json:"outcome"`
 	Version string    `json:"version"`
+	Notifs  int       `json:"notifs"`
 	Burst   bool      `json:"burst"` // consecutive reads of the behaviour are handed over together: no idle iteration of the loop in between
 }
 
@@ -111,7 +112,7 @@ func (t *rlTransport) release(bs ...[]byte) error {
 		time.Sleep(50 * time.Microsecond)
 	}
 
-	return settleLoop(3)
+	return settleLoop(int64(len(bs)) + 3) // the NETCONF loop takes one queued read per iteration
 }
 
 func settleLoop(iters int64) error {
@@ -197,6 +198,24 @@ func c08rlOne(s *rlScn, idx int) verdict {
 		tokens[rlTok{"hdr", i}] = framed[:cut1]
 		tokens[rlTok{"body", i}] = framed[cut1:cut2]
 		tokens[rlTok{"end", i}] = framed[cut2:]
+	}
+
+	// notification k of subscription 7 (tokens nhdr / nbody / nend numbered 20 + k)
+	for k := 1; k <= s.Notifs; k++ {
+		pay := fmt.Sprintf(`<notification xmlns="urn:ietf:params:xml:ns:netconf:notification:1.0"><eventTime>2026-01-01T00:00:0%dZ</eventTime><push-update><subscription-id>7</subscription-id><k>%d</k></push-update></notification>`, k, k)
+
+		var framed []byte
+		if s.Version == "1.1" {
+			framed = simdev.Frame11([]byte(pay), []int{len(pay)})
+		} else {
+			framed = simdev.Frame10([]byte(pay))
+		}
+
+		cut1 := bytes.Index(framed, []byte(`</subscription-id>`)) + len(`</subscription-id>`)
+		cut2 := bytes.LastIndex(framed, delim)
+		tokens[rlTok{"nhdr", 20 + k}] = framed[:cut1]
+		tokens[rlTok{"nbody", 20 + k}] = framed[cut1:cut2]
+		tokens[rlTok{"nend", 20 + k}] = framed[cut2:]
 	}
 
 	send := func(i int, to time.Duration) error {
@@ -289,7 +308,7 @@ func c08rlOne(s *rlScn, idx int) verdict {
 			return v
 		}
 
-		if e.A != "read" && e.A != "reply" {
+		if e.A != "read" && e.A != "reply" && e.A != "notify" {
 			if err = flush(); err != nil {
 				return tool("%v", err)
 			}
@@ -305,7 +324,7 @@ func c08rlOne(s *rlScn, idx int) verdict {
 			if err = send(e.I, to); err != nil {
 				return tool("%v", err)
 			}
-		case "reply":
+		case "reply", "notify":
 		case "read":
 			if len(e.Toks) == 0 {
 				if err = flush(); err == nil {
@@ -350,6 +369,23 @@ func c08rlOne(s *rlScn, idx int) verdict {
 
 	if !v.OK {
 		return v
+	}
+
+	// which notifications were filed, whole, for the subscription (not part of the property: compared with the model's prediction
+	// by the caller, reported as a note)
+	if s.Notifs > 0 {
+		msgs := d.GetSubscriptionMessages(7)
+		stored := make([]bool, s.Notifs)
+
+		for _, m := range msgs {
+			for k := 1; k <= s.Notifs; k++ {
+				if bytes.Contains(m, []byte(fmt.Sprintf("<k>%d</k>", k))) && bytes.Count(m, []byte("<notification")) == 1 && !bytes.Contains(m, []byte("<rpc")) {
+					stored[k-1] = true
+				}
+			}
+		}
+
+		v.Extra = map[string]interface{}{"nstored": stored, "nfiled": len(msgs)}
 	}
 
 	// probe: one more call, answered at once in two reads, must get its own reply (nothing left in the buffer poisons it)
